@@ -251,3 +251,6 @@ func Logf(format string, a ...interface{}) {
 func Observe(name string, v uint64) {
 	fmt.Printf("VERIF-OBSERVE %s=%d\n", name, v)
 }
+
+// ChanCap limits the capacity of a channel under the symbolic executor (no-op natively).
+func ChanCap(ch interface{}, n int) {}
